@@ -311,7 +311,7 @@ def run_aging(n_streams):
   n = 0
   lp = vloop.loop()
   try:
-    for pre in ([1, 5, 9], [5, 5, 9, 1], [9, 1, 5, 5, 1]):
+    for pre in ([5], [9, 1], [1, 5, 9], [5, 5, 9, 1], [9, 1, 5, 5, 1]):      # the first two: the reservoir is still filling when time passes
       for post in ([5], [9, 1], [1, 5, 9]):
         stack = [[]]
         while stack:
@@ -349,7 +349,7 @@ def run_aging(n_streams):
           ok = pcts is not None and all(min(retained) - 1e-9 <= p <= max(retained) + 1e-9 for p in pcts)
           # if the reservoir coin rejected every late sample the series has not changed for MAX_AGG_AGE and may be aged out
           # (the statement does not speak about ageing); once a late sample was retained the series is current
-          accepted_late = any(lbl.endswith('random=low') for lbl in ch.trace()[n_pre:])
+          accepted_late = len(pre) < 3 or any(lbl.endswith('random=low') for lbl in ch.trace()[n_pre:])
           if not ok and accepted_late:
             viol.append({'clause': 'C18.percentile', 'message': 'series sampled %r, then (after %d s) %r retains %r but reports percentiles %r'
                          % (pre, varz.VarzAggregator.MAX_AGG_AGE + 1, post, retained, pcts), 'sig': {'aging': True}})
